@@ -22,7 +22,7 @@ def register(PROP, SUF):
                      f"len({T_('resolve_option')}) == 1 and len({T_('validate_value')}) == 1",
                      # the option itself: the validated value goes through set_value, once; the option stops yielding; no override is touched
                      f"implies(key in self.options, len({T_('set_value')}) == 1 and {T_('set_value')}[0][1] is {OPT_} and {T_('set_value')}[0][2] is {VAL_})",
-                     f"implies(key in self.options, result == (attr_value({OPT_}) is not {VAL_}))",
+                     f"implies(key in self.options, result == (attr_value({OPT_}) is not {VAL_} or attr_yielding({OPT_})))",
                      # an option that is given a value explicitly stops yielding to its parent — ALWAYS, also when the value equals the
                      # one it already holds (else the parent's value keeps winning although the user named this option)
                      f"implies(key in self.options, len({T_('setattr')}) == 1 and {T_('setattr')}[0][1] is {OPT_} and {T_('setattr')}[0][2] == 'yielding' and {T_('setattr')}[0][3] is False)" if False else
@@ -43,7 +43,7 @@ def register(PROP, SUF):
                  opaque={'evolve': ([Opt(Str)], Obj, ['subproject'])},
                  opaque_attrs={'name': Str, 'subproject': Opt(Str), 'deprecated': Bool, 'readonly': Bool, 'value': Obj, 'yielding': Bool},
                  modifies=['self.augments'], floor=12,
-                 note='the value stored is the one validate_value returned; an override touches no other key; the returned flag is true exactly when the stored state differs from before (values compared as abstract values)')
+                 note='the value stored is the one validate_value returned; an override touches no other key; the returned flag is true exactly when the stored state differs from before — the value, or whether the option yields to its parent (values compared as abstract values)')
     SO = T_('set_option')
     SOS2 = Struct('OptionStore', 'mesonbuild.options:OptionStore', options=Dict(Obj, Obj), augments=Dict(Obj, Str))
     REG.contract(PROP, O, 'OptionStore.set_option', variant='buildtype' + SUF,
@@ -56,7 +56,7 @@ def register(PROP, SUF):
                      f"(len({SO}) == 2) == (result and {VAL_} != 'custom')", f"len({SO}) == 2 or len({SO}) == 0",
                      f"({SO}[0][1] is obj_evolve(key, 'debug') and {SO}[1][1] is obj_evolve(key, 'optimization') and {SO}[0][3] == first_invocation and {SO}[1][3] == first_invocation) if len({SO}) == 2 else True",
                      f"all(implies({VAL_} == bt, {SO}[0][2] == dv[1] and {SO}[1][2] == dv[0]) for bt, dv in self.DEFAULT_DEPENDENTS.items()) if len({SO}) == 2 else True",
-                     f"implies(key in self.options, result == (attr_value({OPT_}) != {VAL_}))",
+                     f"implies(key in self.options, result == (attr_value({OPT_}) != {VAL_} or attr_yielding({OPT_})))",
                  ],
                  raises={'MesonException': 'True', 'AssertionError': 'True', 'KeyError': f'True'}, exact_raises=False,
                  method_effects={'is_builtin_option': {'returns': Bool, 'raises': []}, 'get_value_for': {'returns': Obj, 'raises': []},
